@@ -61,8 +61,12 @@ def pumps(r):
         return "\n".join("  " * i + "- a" for i in range(min(n, 200))) + "\n"
     if k < 0.38:
         return "*" * n + "a" + "*" * n + "\n"
-    if k < 0.46:
+    if k < 0.42:
         return "[" * n + "a" + "]" * n + "(u)\n"
+    if k < 0.46:
+        # link text that holds raw anchor tags (what the parser remembers about being inside a link must not be undone by them)
+        a = r.choice(["[a </a> ", "[a <a> ", "[</a>", "[x <a href=y>z</a> ", "![i </a> [", "[a </A> *e "])
+        return a * n + "x" + r.choice(["](u)", "](u) ", "][r]", "]"]) * n + "\n\n[r]: /u\n"
     if k < 0.52:
         return "[![" * min(n, 250) + "x" + "](/i.png)](/u)" * min(n, 250) + "\n"
     if k < 0.58:
